@@ -19,13 +19,22 @@ PROFILES = {
     # encoding is known to be complete (see DESIGN.md, C05): the completeness search enumerates spec-valid
     # schedules and pins each one in the real solver
     "frag": {"task": 5, "worker": 2, "cumulative": 1, "select": 2, "require": 6, "fragc": 7, "fol": 2, "optc": 1},
+    # focused profiles: a small, loosely constrained problem (2-4 tasks without release / due dates, generous horizon,
+    # every task assigned to one of 1-2 workers) and then 1-3 constraints of ONE family, so that the solver keeps the
+    # freedom a constraint is supposed to take away — the SEM / witness searches find nothing on an over-constrained problem
+    "focus_resc": {"resc": 1},
+    "focus_taskc": {"taskc": 1},
+    "focus_fol": {"fol": 3, "optc": 1},
+    "focus_ind": {"ind": 4, "indc": 1},
+    "focus_obj": {"obj": 3, "ind": 1},
     "all": {"ind": 2, "indc": 1, "task": 5, "worker": 2, "cumulative": 1, "select": 2, "require": 6, "taskc": 5, "fol": 3,
             "optc": 1, "resc": 4, "buffer": 1, "bufc": 3},
 }
 
 
 class Gen:
-    def __init__(self, rng, profile="core", size=12, horizon_p=0.7, invalid_p=0.03, thorough=False, simple=False):
+    def __init__(self, rng, profile="core", size=12, horizon_p=0.7, invalid_p=0.03, thorough=False, simple=False,
+                 keep_sat=True):
         self.rng = rng
         self.w = PROFILES[profile]
         self.size = size
@@ -45,9 +54,43 @@ class Gen:
             self.horizon = rng.choice([6, 8, 10, 12])
         self.nt = self.nw = self.nc = self.nb = 0
         self.kinds = {}      # distribution of declaration kinds (for evidence)
+        self.keep_sat = keep_sat
+        self.feasible = True
+        self.focus = profile.startswith("focus_")
+        if self.focus:
+            self.invalid_p = 0.0
+            self.horizon = rng.choice([12, 16, 20, 25, 30, 40, None])
 
     # ------------------------------------------------------------------ helpers
+    def keeps_satisfiable(self, d):
+        """would the problem still admit a schedule with `d` added?  Decided on a scratch rebuild of the script with
+        the real library and z3 (1 s budget; unknown counts as yes); the active problem is restored afterwards"""
+        import z3
+        import processscheduler.base
+        try:
+            trial = pslib.Real()
+            res = trial.run([x for x in self.script if x["op"] != "solver"] + [d])
+            if res[-1] != "ok" or trial.problem is None:
+                return True                  # rejected declarations belong to the ill-formed stream
+            s = trial.initialize()
+            chk = z3.Solver()
+            chk.set("timeout", 1000)
+            chk.add(s._solver.assertions())
+            return chk.check() != z3.unsat
+        except Exception:  # noqa: BLE001
+            return True
+        finally:
+            processscheduler.base.active_problem = self.real.problem
+
     def emit(self, d):
+        if self.keep_sat and self.feasible and d["op"] not in ("problem", "worker", "cumulative", "select", "solver",
+                                                              "indicator", "objective"):
+            if not self.keeps_satisfiable(d):
+                if self.rng.random() < 0.9:
+                    self.kinds["skipped_would_be_infeasible"] = self.kinds.get("skipped_would_be_infeasible", 0) + 1
+                    return "skipped"
+                self.feasible = False        # a tenth of the conflicts is kept: infeasible problems are inputs too
+                self.kinds["infeasible_scripts"] = self.kinds.get("infeasible_scripts", 0) + 1
         r = self.real.step(d)
         self.real.results.append(r)
         self.script.append(d)
@@ -118,6 +161,13 @@ class Gen:
             al = rng.choice([None, None, None, [1, 2], [2, 3, 5], [mn + 1]])
             kind = ("var", mn, mx, al)
         d = {"op": "task", "name": name, "kind": kind, "optional": rng.random() < 0.35}
+        if self.focus:
+            # loose tasks: long or unbounded variable durations, no release / due date
+            if rng.random() < 0.55:
+                mn = rng.choice([0, 1, 2, 3])
+                d["kind"] = ("var", mn, rng.choice([None, None, mn + 4, mn + 9, 15]), None)
+            d["optional"] = rng.random() < 0.2
+            return self.emit(d)
         if rng.random() < 0.3:
             d["release"] = rng.choice([0, 1, 2, 3, 5])
         if rng.random() < 0.35:
@@ -404,8 +454,9 @@ class Gen:
             lambda: ("workload", r, [(a, b_, rng.choice([0, 1, 2, b_ - a, b_ - a + 1])) for a, b_ in dict.fromkeys(ivs())],
                      self.count_kind()),
             lambda: ("interrupted", r, list(dict.fromkeys(ivs()))),
-            lambda: ("periodicallyUnavailable", rp, [(a, min(b_, a + 3)) for a, b_ in dict.fromkeys(ivs())][:2],
-                     rng.choice([5, 7, 10]), rng.choice([0, 0, 2, 7]), rng.choice([0, 0, 1, 3]),
+            lambda: ("periodicallyUnavailable", rp,
+                     in_period() if rng.random() < 0.8 else [(a, min(b_, a + 3)) for a, b_ in dict.fromkeys(ivs())][:2],
+                     period, rng.choice([0, 0, 2, 7]), rng.choice([0, 0, 1, 3]),
                      rng.choice([None, None, self.H(), 15])),
             lambda: ("periodicallyInterrupted", rp, in_period(), period, rng.choice([0, 0, 2, 7]), rng.choice([0, 0, 1, 3]),
                      rng.choice([None, None, self.H(), 15])),
@@ -532,11 +583,42 @@ class Gen:
         self.emit({"op": "objective", "o": rng.choice(forms)()})
 
     # ------------------------------------------------------------------ driver
+    def run_focus(self):
+        rng = self.rng
+        for _ in range(rng.randint(2, 4)):
+            self.g_task()
+        for _ in range(rng.randint(1, 2)):
+            self.g_worker()
+        ws = self.plain_workers()
+        for t in self.tasks():
+            if rng.random() < 0.9:
+                d = {"op": "require", "task": t, "res": ("worker", rng.choice(ws))}
+                m = rng.random()
+                if m < 0.2:
+                    d["dynamic"] = True
+                elif m < 0.45:
+                    kind = next((x["kind"] for x in self.script if x["op"] == "task" and x["name"] == t), ("zero",))
+                    room = kind[1] if kind[0] in ("fixed", "var") else 0
+                    di, eo = rng.choice([0, 1, 1, 2]), rng.choice([0, 0, 1, 2])
+                    if di + eo <= room and di + eo > 0:
+                        d["delay_in"], d["early_out"] = di, eo
+                self.emit(d)
+        kinds = list(self.w)
+        weights = [self.w[k] for k in kinds]
+        want = rng.randint(1, 3)
+        for _ in range(8):
+            if sum(1 for x in self.script if x["op"] in ("constraint", "indicator", "objective")) >= want:
+                break
+            getattr(self, "g_" + rng.choices(kinds, weights)[0])()
+        return self.script
+
     def run(self):
         d = {"op": "problem", "name": "pb"}
         if self.horizon is not None:
             d["horizon"] = self.horizon
         self.emit(d)
+        if self.focus:
+            return self.run_focus()
         kinds = list(self.w)
         weights = [self.w[k] for k in kinds]
         # always start with a couple of tasks so that references resolve
